@@ -23,6 +23,14 @@ READING (vocabulary: tools/tie_shear/ShearTieBase.v, copied next to the generate
 ACCEPTED GRAMMAR (everything else -> TranslateError naming file, line and construct)
   module     imports (numpy, itertools, typing, logging.getLogger, lazy_property.LazyProperty, cij.util C_/c_),
              `logger = getLogger(__name__)`, the two functions, the class; every name the reading relies on bound once
+  helpers    a further UNDECORATED module-level function, bound once, is only looked at where a loop function consumes it:
+             it must be a generator  def h(strain, target[=None]):  NZ = argwhere(..strain..);  for (i, j), (k, l) in
+             itertools.product(NZ, NZ): <loop body statements>; yield <tuple of numbers / keys>   (one yield, last statement;
+             no return / break / try / with / nested def / lambda) consumed as  `for <names> in h(<strain param>, <target
+             param | None>)`  or  `return [KEY for <names> in h(..)]` (no conditions).  It is INLINED: its statements (Coq
+             names h_*), the consumer's names bound to the yielded values (`_` binds nothing), the consumer's body.  Sound
+             because a generator runs its body up to each yield in loop order and the consumer's body once per yield, and
+             neither body can store into anything but fresh locals / the accumulator
   loop fns   ACC = <number> | ACC = []          NZ = numpy.argwhere(numpy.logical_not(numpy.isclose(<param 1>, 0)))
              for (i, j), (k, l) in itertools.product(NZ, NZ):  <loop body>          return ACC
              loop body:  KEY = c_(<4 ints of the loop indices>)  (exactly once; emitted as gen_energy_key / gen_keys_key)
@@ -32,8 +40,10 @@ ACCEPTED GRAMMAR (everything else -> TranslateError naming file, line and constr
              NO other AugAssign, no call but c_(..4 ints..) and <resolver param>(KEY), no attribute, no numpy.*
   class      no bases/decorators; docstring and defs only; __init__ template-checked; known members with the
              decorators of MEMBERS (value_isothermal MUST be @LazyProperty, the two strain energies MUST be @property)
-  member     docstring | logger.debug(<pure text>) | NAME = expr (single assignment, not a bare name) |
-             a, b, c, d = self.key.standard | LOCAL[int, int] = <number> on a fresh numpy.zeros((3, 3)) local |
+  member     docstring | logger.debug(<pure text: + % f-strings str repr of constants, self.key/.strain/.fictitious_strain,
+             the oracle, bound locals>) | NAME = expr (single assignment, not a bare name) |
+             a, b, c, d = self.key.standard | w, v = numpy.linalg.eigh(self.fictitious_strain) (component 0 / 1 of the
+             same oracle pair, `_` binds nothing) | LOCAL[int, int] = <number> on a fresh numpy.zeros((3, 3)) local |
              numpy.einsum('...ii -> ...i', LOCAL)[...] = self.strain on a fresh numpy.zeros((*self.strain.shape, 3))
              local | return expr (last)
   expr       numbers (exact decimals), + - * / unary -, @ and .T on matrices, M[int, int], tuple[int],
@@ -87,10 +97,10 @@ def src_of(n):
     return ast.unparse(n)
 
 
-def coq_name(node, name):
+def coq_name(node, name, prefix="v_"):
     if not (name.isascii() and name.isidentifier()):
         bail(node, "unsupported identifier")
-    return "v_" + name
+    return prefix + name
 
 
 # ------------------------------------------------------------------------------------------------
@@ -279,12 +289,22 @@ def plain_args(fn, ndefaults_ok):
 # ------------------------------------------------------------------------------------------------
 
 class LoopFn(Exprs):
-    def __init__(self, fn, mode):
+    """one of the two module-level loop functions.  The loop may be written out in the function itself or live in a
+    private module-level GENERATOR (argwhere / product / key / target test, ending in `yield <tuple>`) that the function
+    consumes by `for <names> in helper(<its strain>, <its target>)` or by a list comprehension over it: the generator is
+    then inlined (its locals get the Coq prefix h_, so nothing can be captured).  A generator runs its body up to each
+    `yield` in loop order and the consumer's body once per yielded tuple, so the inlined statement sequence is the
+    sequence Python executes; neither body may store into anything but fresh locals / the accumulator."""
+
+    def __init__(self, fn, mode, helpers=None):
         self.fn, self.mode = fn, mode          # mode: "energy" | "keys"
+        self.helpers = helpers or {}
         self.resolver_called = False
+        self.guard_seen = False
         self.keydef = None
         self.keyname = "gen_energy_key" if mode == "energy" else "gen_keys_key"
         self.idx = []
+        self.inlined = None
 
     # -- expressions in the loop body
     def name(self, e, env):
@@ -314,6 +334,100 @@ class LoopFn(Exprs):
             return V("F", "(%s %s)" % (env[e.func.id].t, k))
         bail(e, "call outside the translator's grammar")
 
+    # -- pieces
+    @staticmethod
+    def nz_text(fs):
+        return "numpy.argwhere(numpy.logical_not(numpy.isclose(%s, 0)))" % fs
+
+    def product_header(self, loop, nz, taken, prefix):
+        """`for (i, j), (k, l) in itertools.product(NZ, NZ):` -> (python index names, Coq names)"""
+        if loop.orelse or getattr(loop, "type_comment", None):
+            bail(loop, "for ... else")
+        if src_of(loop.iter) != "itertools.product(%s, %s)" % (nz, nz):
+            bail(loop.iter, "the loop must run over itertools.product(%s, %s)" % (nz, nz))
+        tg = loop.target
+        ok = isinstance(tg, ast.Tuple) and len(tg.elts) == 2 and all(
+            isinstance(p, ast.Tuple) and len(p.elts) == 2 and all(isinstance(x, ast.Name) for x in p.elts) for p in tg.elts)
+        if not ok:
+            bail(tg, "the loop target must be `(i, j), (k, l)`")
+        idx = [x.id for p in tg.elts for x in p.elts]
+        if len(set(idx)) != 4 or set(idx) & (set(taken) | RESERVED):
+            bail(tg, "loop index names must be four fresh distinct names")
+        return idx, [coq_name(tg, n, prefix) for n in idx]
+
+    def inline(self, call, fs, tgt, cn):
+        """the private generator consumed by the loop function -> (Coq index names, lines, yielded values)"""
+        h = self.helpers[call.func.id]
+        if h.decorator_list:
+            bail(h, "decorated helper")
+        hn, hd = plain_args(h, (0, 1))
+        if len(hn) != 2 or len(set(hn)) != 2 or (hd and not (isinstance(hd[0], ast.Constant) and hd[0].value is None)):
+            bail(h, "a loop helper must take (strain, target[=None])")
+        if any(isinstance(a, ast.Starred) for a in call.args) or len(call.args) > 2:
+            bail(call, "unsupported arguments of the loop helper")
+        args = dict(zip(hn, call.args))
+        for k in call.keywords:
+            if k.arg not in hn or k.arg in args:
+                bail(call, "unknown / repeated keyword argument of the loop helper")
+            args[k.arg] = k.value
+        a = args.get(hn[0])
+        if not (isinstance(a, ast.Name) and a.id == fs):
+            bail(call, "the loop helper must be applied to the strain parameter `%s` itself" % fs)
+        b = args.get(hn[1])
+        if b is None:
+            if not hd:
+                bail(call, "missing target argument of the loop helper")
+            tterm = "None"
+        elif isinstance(b, ast.Constant) and b.value is None:
+            tterm = "None"
+        elif isinstance(b, ast.Name) and b.id == tgt:
+            tterm = cn[tgt]
+        else:
+            bail(call, "the loop helper must be given the target parameter `%s` itself (or None)" % tgt)
+        for x in ast.walk(h):
+            if isinstance(x, (ast.YieldFrom, ast.Return, ast.Lambda, ast.AsyncFor, ast.AsyncWith, ast.Await, ast.Global,
+                              ast.Nonlocal, ast.Try, ast.With, ast.While, ast.Break, ast.ClassDef)) or \
+                    (isinstance(x, ast.FunctionDef) and x is not h):
+                bail(x, "construct not accepted in a loop helper")
+        if sum(isinstance(x, ast.Yield) for x in ast.walk(h)) != 1:
+            bail(h, "a loop helper must contain exactly one `yield`")
+        st = [s for s in h.body if not is_doc(s)]
+        if len(st) != 2 or not (isinstance(st[0], ast.Assign) and len(st[0].targets) == 1 and
+                                isinstance(st[0].targets[0], ast.Name) and src_of(st[0].value) == self.nz_text(hn[0])) \
+                or not isinstance(st[1], ast.For):
+            bail(h, "a loop helper must be exactly: NZ = %s; for (i, j), (k, l) in itertools.product(NZ, NZ): ... yield ..."
+                 % self.nz_text(hn[0]))
+        nz = st[0].targets[0].id
+        if nz in hn or nz in RESERVED:
+            bail(st[0], "index list shadows a parameter / reserved name")
+        idx, ci = self.product_header(st[1], nz, hn + [nz], "h_")
+        self.idx = idx
+        env = {hn[0]: V("M", cn[fs]), hn[1]: V("Opt", tterm), nz: V("Acc?", None)}
+        for n, c in zip(idx, ci):
+            env[n] = V("N", c)
+        lines, vals = self.block(st[1].body, env, dict(acc=None, final="yield", tgt=hn[1], prefix="h_", fn=h))
+        self.inlined = h.name
+        return ci, lines, vals
+
+    def bind_targets(self, tg, vals, env, taken):
+        """consumer side of the generator: `for a, b, c in helper(..)`; `_` may repeat and binds nothing"""
+        names = [tg] if isinstance(tg, ast.Name) else list(tg.elts) if isinstance(tg, ast.Tuple) else None
+        if names is None or not all(isinstance(x, ast.Name) for x in names) or len(names) != len(vals) or \
+                (isinstance(tg, ast.Name) and len(vals) != 1):
+            bail(tg, "the loop target must be as many plain names as the helper yields (%d)" % len(vals))
+        lines = []
+        seen = set()
+        for x, v in zip(names, vals):
+            if x.id == "_":
+                continue
+            if x.id in seen or x.id in env or x.id in taken or x.id in RESERVED:
+                bail(x, "loop target name is bound / repeated / reserved")
+            seen.add(x.id)
+            c = coq_name(x, x.id)
+            lines.append("        let %s := %s in" % (c, v.t))
+            env[x.id] = V(v.ty, c)
+        return lines
+
     # -- the function
     def translate(self):
         fn = self.fn
@@ -331,6 +445,26 @@ class LoopFn(Exprs):
         res = names[1] if energy else None
         cn = {n: coq_name(fn, n) for n in names}
         stmts = [s for s in fn.body if not is_doc(s)]
+        base_env = {fs: V("M", cn[fs]), tgt: V("Opt", cn[tgt])}
+        if energy:
+            base_env[res] = V("Res", cn[res])
+
+        # ---- form 0 (keys only): return [ELT for <names> in helper(strain, target)]
+        if not energy and len(stmts) == 1 and isinstance(stmts[0], ast.Return) and isinstance(stmts[0].value, ast.ListComp):
+            lc = stmts[0].value
+            g = lc.generators[0] if len(lc.generators) == 1 else None
+            if g is None or g.ifs or g.is_async or not (isinstance(g.iter, ast.Call) and isinstance(g.iter.func, ast.Name)
+                                                        and g.iter.func.id in self.helpers):
+                bail(lc, "only `[KEY for <names> in <loop helper>(strain, target)]` (no conditions) is accepted")
+            ci, hlines, vals = self.inline(g.iter, fs, tgt, cn)
+            env = dict(base_env)
+            cacc = "r_keys"
+            lines = hlines + self.bind_targets(g.target, vals, env, names)
+            k = to_key(lc.elt, self.expr(lc.elt, env))
+            lines.append("        (%s ++ [%s])" % (cacc, k))
+            return self.emit(cn, fs, res, tgt, cacc, "[]", ci, "\n".join(lines))
+
+        # ---- initialisations, one loop, return ACC
         acc = nz = None
         init = None
         i = 0
@@ -342,9 +476,8 @@ class LoopFn(Exprs):
             if nm in names or nm in (acc, nz) or nm in RESERVED:
                 bail(s, "assignment to a parameter / an already bound name before the loop")
             if isinstance(s.value, ast.Call):
-                want = "numpy.argwhere(numpy.logical_not(numpy.isclose(%s, 0)))" % fs
-                if src_of(s.value) != want or nz is not None:
-                    bail(s, "the index list must be `%s`, once" % want)
+                if src_of(s.value) != self.nz_text(fs) or nz is not None:
+                    bail(s, "the index list must be `%s`, once" % self.nz_text(fs))
                 nz = nm
             else:
                 if acc is not None:
@@ -360,40 +493,50 @@ class LoopFn(Exprs):
                     init = "[]"
                 acc = nm
             i += 1
-        if acc is None or nz is None:
-            bail(fn, "accumulator initialisation / index list not found before the loop in")
+        if acc is None:
+            bail(fn, "accumulator initialisation not found before the loop in")
         if len(stmts) != i + 2 or not isinstance(stmts[i], ast.For):
             bail(stmts[i] if i < len(stmts) else fn, "expected exactly: initialisations, one for loop, `return %s`" % acc)
         loop, ret = stmts[i], stmts[i + 1]
         if not (isinstance(ret, ast.Return) and isinstance(ret.value, ast.Name) and ret.value.id == acc):
             bail(ret, "the function must end with `return %s`" % acc)
-        if loop.orelse or getattr(loop, "type_comment", None):
-            bail(loop, "for ... else")
-        if src_of(loop.iter) != "itertools.product(%s, %s)" % (nz, nz):
-            bail(loop.iter, "the loop must run over itertools.product(%s, %s)" % (nz, nz))
-        tg = loop.target
-        ok = isinstance(tg, ast.Tuple) and len(tg.elts) == 2 and all(
-            isinstance(p, ast.Tuple) and len(p.elts) == 2 and all(isinstance(x, ast.Name) for x in p.elts) for p in tg.elts)
-        if not ok:
-            bail(tg, "the loop target must be `(i, j), (k, l)`")
-        idx = [x.id for p in tg.elts for x in p.elts]
-        if len(set(idx)) != 4 or set(idx) & (set(names) | {acc, nz} | RESERVED):
-            bail(tg, "loop index names must be four fresh distinct names")
-        ci = [coq_name(tg, n) for n in idx]
-        self.idx = idx
-        env = {fs: V("M", cn[fs]), tgt: V("Opt", cn[tgt]), acc: V("Acc?", coq_name(fn, acc)), nz: V("Acc?", None)}
-        if energy:
-            env[res] = V("Res", cn[res])
-        for n, c in zip(idx, ci):
-            env[n] = V("N", c)
-        body = self.loop_body(loop.body, env, acc, tgt)
         cacc = coq_name(fn, acc)
+        env = dict(base_env)
+        env[acc] = V("Acc?", cacc)
+        sc = dict(acc=acc, final=self.mode, tgt=tgt, prefix="v_", fn=fn)
+        it = loop.iter
+        if isinstance(it, ast.Call) and isinstance(it.func, ast.Name) and it.func.id in self.helpers:
+            # ---- form 2: the loop lives in a private generator
+            if nz is not None:
+                bail(fn, "an index list is built but the loop runs over a helper in")
+            if loop.orelse:
+                bail(loop, "for ... else")
+            ci, hlines, vals = self.inline(it, fs, tgt, cn)
+            lines = hlines + self.bind_targets(loop.target, vals, env, names + [acc])
+            blines, _ = self.block(loop.body, env, sc)
+            body = "\n".join(lines + blines)
+        else:
+            # ---- form 1: the loop is written out
+            if nz is None:
+                bail(fn, "index list not found before the loop in")
+            env[nz] = V("Acc?", None)
+            idx, ci = self.product_header(loop, nz, names + [acc, nz], "v_")
+            self.idx = idx
+            for n, c in zip(idx, ci):
+                env[n] = V("N", c)
+            blines, _ = self.block(loop.body, env, sc)
+            body = "\n".join(blines)
+        return self.emit(cn, fs, res, tgt, cacc, init, ci, body)
+
+    def emit(self, cn, fs, res, tgt, cacc, init, ci, body):
+        energy = self.mode == "energy"
+        if self.keydef is None:
+            bail(self.fn, "no key local (`key = c_(i+1, j+1, k+1, l+1)`) in the loop body of")
         accty = "F" if energy else "list vkey"
         params = "(isz : F -> bool) (%s : nat -> nat -> F)%s (%s : option vkey)" % (
             cn[fs], " (%s : vkey -> F)" % cn[res] if energy else "", cn[tgt])
-        if self.keydef is None:
-            bail(fn, "no key local (`key = c_(i+1, j+1, k+1, l+1)`) in the loop body of")
-        text = ("  Definition %s (%s : nat) : vkey :=\n    %s.\n" % (self.keyname, " ".join(ci), self.keydef)) + \
+        body = body.replace("@SKIP@", cacc)     # the target test leaves the accumulator as it is
+        return ("  Definition %s (%s : nat) : vkey :=\n    %s.\n" % (self.keyname, " ".join(ci), self.keydef)) + \
                ("  Definition %s %s : %s :=\n"
                 "    fold_left (fun (%s : %s) (t : nat * nat * nat * nat) =>\n"
                 "      let '(%s, %s, %s, %s) := t in\n"
@@ -401,45 +544,45 @@ class LoopFn(Exprs):
                 "      else %s) idx81 %s."
                 % ("gen_energy" if energy else "gen_energy_keys", params, accty, cacc, accty, ci[0], ci[1], ci[2], ci[3],
                    cn[fs], ci[0], ci[1], cn[fs], ci[2], ci[3], body, cacc, init))
-        return text
 
-    def loop_body(self, stmts, env, acc, tgt):
-        """-> Coq text of the new accumulator value"""
+    def block(self, stmts, env, sc):
+        """statements of a loop body -> (Coq lines, yielded values or None).  sc: acc (python name or None), final
+        ('energy' | 'keys' | 'yield'), tgt (python name of the target in this scope), prefix of Coq names, fn"""
         lines = []
-        guard_seen = False
-        cacc = env[acc].t
+        acc, final, tgt, prefix = sc["acc"], sc["final"], sc["tgt"], sc["prefix"]
+        cacc = env[acc].t if acc else None
         ind = "        "
         for n, s in enumerate(stmts):
             last = n == len(stmts) - 1
             if isinstance(s, ast.AugAssign):
-                if not (isinstance(s.target, ast.Name) and s.target.id == acc):
-                    bail(s, "in-place operation on something other than the local accumulator `%s` (it would modify "
-                            "an array owned by the caller)" % acc)
-                if self.mode != "energy" or not isinstance(s.op, (ast.Add, ast.Sub)):
+                if not (acc and isinstance(s.target, ast.Name) and s.target.id == acc):
+                    bail(s, "in-place operation on something other than the local accumulator%s (it would modify "
+                            "an array owned by the caller)" % (" `%s`" % acc if acc else ""))
+                if final != "energy" or not isinstance(s.op, (ast.Add, ast.Sub)):
                     bail(s, "the accumulator may only be updated by += / -=")
                 if not last:
                     bail(s, "the accumulation must be the last statement of the loop body")
                 t = to_F(s.value, self.expr(s.value, env))
                 lines.append("%s(%s %s %s)" % (ind, cacc, "+" if isinstance(s.op, ast.Add) else "-", t))
-                return "\n".join(lines)
+                return lines, None
             if isinstance(s, ast.Assign):
                 if len(s.targets) != 1 or not isinstance(s.targets[0], ast.Name):
                     bail(s, "unsupported assignment target in the loop body (stores into arrays are not accepted)")
                 nm = s.targets[0].id
-                if nm == acc:
-                    if self.mode != "energy" or not last:
+                if acc and nm == acc:
+                    if final != "energy" or not last:
                         bail(s, "the accumulator may only be re-assigned by the last statement of the loop body")
                     env2 = dict(env)
                     env2[acc] = V("F", cacc)
                     t = to_F(s.value, self.expr(s.value, env2))
                     lines.append("%s%s" % (ind, t))
-                    return "\n".join(lines)
-                if nm in env or nm in RESERVED:
+                    return lines, None
+                if nm in env or nm in RESERVED or nm == "_":
                     bail(s, "local name assigned twice / shadows a name the translation relies on")
                 if isinstance(s.value, ast.Name):
                     bail(s, "aliasing assignment of a bare name")
                 v = self.expr(s.value, env)
-                c = coq_name(s, nm)
+                c = coq_name(s, nm, prefix)
                 if v.ty == "C":
                     v = V("F", const_F(v.c))
                 if v.ty not in ("F", "Z", "Key"):
@@ -447,7 +590,7 @@ class LoopFn(Exprs):
                 if v.ty == "Key":
                     # the key of the tuple becomes a definition of its own (its tie is a finite check over the 81 tuples)
                     used = {x.id for x in ast.walk(s.value) if isinstance(x, ast.Name)} - {"c_"}
-                    if self.keydef is not None or not used <= set(self.idx):
+                    if self.keydef is not None or not used <= set(self.idx) or not all(x in env for x in self.idx):
                         bail(s, "exactly one key local, built from the four loop indices only, is accepted")
                     self.keydef = v.t
                     v = V("Key", "(%s %s)" % (self.keyname, " ".join(env[x].t for x in self.idx)))
@@ -455,17 +598,17 @@ class LoopFn(Exprs):
                 env[nm] = V(v.ty, c)
                 continue
             if isinstance(s, ast.If):
-                if guard_seen:
+                if self.guard_seen:
                     bail(s, "second conditional in the loop body")
                 if s.orelse or len(s.body) != 1 or not isinstance(s.body[0], ast.Continue):
                     bail(s, "the only conditional accepted is `if <target> and <key> == <target>: continue`")
                 if self.resolver_called:
                     bail(s, "the resolver is called before the target test (it raises KeyError for the unknown target)")
                 k = self.guard(s.test, env, tgt)
-                lines.append("%sif key_is %s %s then %s else" % (ind, env[tgt].t, k, cacc))
-                guard_seen = True
+                lines.append("%sif key_is %s %s then @SKIP@ else" % (ind, env[tgt].t, k))
+                self.guard_seen = True
                 continue
-            if isinstance(s, ast.Expr) and self.mode == "keys" and isinstance(s.value, ast.Call):
+            if isinstance(s, ast.Expr) and final == "keys" and isinstance(s.value, ast.Call):
                 c = s.value
                 if isinstance(c.func, ast.Attribute) and c.func.attr == "append" and isinstance(c.func.value, ast.Name) \
                         and c.func.value.id == acc and len(c.args) == 1 and not c.keywords:
@@ -473,9 +616,27 @@ class LoopFn(Exprs):
                         bail(s, "the append must be the last statement of the loop body")
                     k = to_key(c.args[0], self.expr(c.args[0], env))
                     lines.append("%s(%s ++ [%s])" % (ind, cacc, k))
-                    return "\n".join(lines)
+                    return lines, None
+            if isinstance(s, ast.Expr) and final == "yield" and isinstance(s.value, ast.Yield):
+                if not last:
+                    bail(s, "the yield must be the last statement of the helper's loop body")
+                y = s.value.value
+                if y is None:
+                    bail(s, "bare yield")
+                elts = list(y.elts) if isinstance(y, ast.Tuple) else [y]
+                vals = []
+                for x in elts:
+                    if isinstance(x, ast.Starred):
+                        bail(x, "starred yield")
+                    v = self.expr(x, env)
+                    if v.ty == "C":
+                        v = V("F", const_F(v.c))
+                    if v.ty not in ("F", "Z", "Key"):
+                        bail(x, "a helper may only yield numbers and keys")
+                    vals.append(v)
+                return lines, vals
             bail(s, "unsupported statement in the loop body")
-        bail(self.fn, "the loop body does not end with the accumulation in")
+        bail(sc["fn"], "the loop body does not end with the %s in" % ("yield" if final == "yield" else "accumulation"))
 
     def guard(self, test, env, tgt):
         """`T and K == T` | `T is not None and K == T`  ->  Coq term of K"""
@@ -534,25 +695,29 @@ RESERVED = set(IMPORTS) | {"self", CLS, FN_ENERGY, FN_KEYS, "str", "repr", "Unio
 DEBUG_SELF = {"key", "fictitious_strain", "strain"}
 
 
-def pure_text(e):
-    """argument of logger.debug: string building from pure reads only"""
+def pure_text(e, local=()):
+    """argument of logger.debug: string building (+, %, f-string, str, repr) from pure reads only: constants, self.key /
+    .strain / .fictitious_strain, the oracle, and already bound locals (arrays, numbers, keys: formatting them runs
+    ndarray / NamedTuple __str__/__repr__/__format__, which do not write)"""
     if isinstance(e, ast.Constant):
         return isinstance(e.value, (str, int, float))
     if isinstance(e, ast.BinOp):
-        return isinstance(e.op, (ast.Add, ast.Mod)) and pure_text(e.left) and pure_text(e.right)
+        return isinstance(e.op, (ast.Add, ast.Mod)) and pure_text(e.left, local) and pure_text(e.right, local)
     if isinstance(e, ast.JoinedStr):
-        return all(pure_text(x) for x in e.values)
+        return all(pure_text(x, local) for x in e.values)
     if isinstance(e, ast.FormattedValue):
-        return pure_text(e.value)
+        return pure_text(e.value, local) and (e.format_spec is None or pure_text(e.format_spec, local))
     if isinstance(e, ast.Tuple):
-        return all(pure_text(x) for x in e.elts)
+        return all(pure_text(x, local) for x in e.elts)
     if isinstance(e, ast.Call):
         return src_of(e.func) in ("str", "repr", "numpy.diag", "numpy.linalg.eigh") and not e.keywords and \
-            all(pure_text(a) for a in e.args)
+            all(pure_text(a, local) for a in e.args)
     if isinstance(e, ast.Subscript):
-        return pure_text(e.value) and isinstance(e.slice, ast.Constant) and type(e.slice.value) is int
+        return pure_text(e.value, local) and isinstance(e.slice, ast.Constant) and type(e.slice.value) is int
     if isinstance(e, ast.Attribute):
         return isinstance(e.value, ast.Name) and e.value.id == "self" and e.attr in DEBUG_SELF
+    if isinstance(e, ast.Name):
+        return e.id in local
     return False
 
 
@@ -676,7 +841,7 @@ class ClassTr(Exprs):
             if isinstance(s, ast.Expr):
                 c = s.value
                 if isinstance(c, ast.Call) and src_of(c.func) == "logger.debug" and not c.keywords and \
-                        all(pure_text(a) for a in c.args):
+                        all(pure_text(a, [k for k in env if not k.startswith("@")]) for a in c.args):
                     continue
                 bail(s, "unsupported expression statement")
             if isinstance(s, ast.Assign):
@@ -688,8 +853,20 @@ class ClassTr(Exprs):
                     continue
                 if isinstance(tg, ast.Tuple) and all(isinstance(x, ast.Name) for x in tg.elts):
                     v = self.expr(s.value, env)
+                    if v.ty == "Eigh" and len(tg.elts) == 2:
+                        # eigenvalues, eigenvectors = numpy.linalg.eigh(self.fictitious_strain): the same oracle pair,
+                        # component 0 / component 1; `_` binds nothing
+                        for x, (ty, proj) in zip(tg.elts, (("Vec", "fst"), ("M", "snd"))):
+                            if x.id == "_":
+                                continue
+                            if x.id in env or x.id in RESERVED or tg.elts[0].id == tg.elts[1].id:
+                                bail(s, "unpacking into a bound / repeated / reserved name")
+                            c = coq_name(x, x.id)
+                            lines.append("let %s := (%s %s) in" % (c, proj, v.t))
+                            env[x.id] = V(ty, c)
+                        continue
                     if v.ty != "Tup" or v.joint is None or len(v.items) != len(tg.elts):
-                        bail(s, "tuple unpacking only of self.key.standard into as many names")
+                        bail(s, "tuple unpacking only of self.key.standard / of the eigh pair into as many names")
                     cs = []
                     for x, it in zip(tg.elts, v.items):
                         if x.id in env or x.id in RESERVED or x.id in [y.id for y in tg.elts if y is not x]:
@@ -952,10 +1129,17 @@ def check_module(mod):
         ns = bound.get(name, [])
         if len(ns) != 1 or not isinstance(ns[0], ty):
             raise TranslateError("%s: `%s` must be defined exactly once at module level" % (SRC, name))
+    helpers = {}
     for name, ns in bound.items():
-        if name not in IMPORTS and name not in (FN_ENERGY, FN_KEYS, CLS) and \
-                not all(isinstance(x, (ast.Import, ast.ImportFrom)) for x in ns):
-            bail(ns[0], "unexpected module-level definition of `%s`" % name)
+        if name in IMPORTS or name in (FN_ENERGY, FN_KEYS, CLS) or all(isinstance(x, (ast.Import, ast.ImportFrom)) for x in ns):
+            continue
+        # a further undecorated module-level function is a candidate loop helper: defining it executes nothing; it
+        # only matters where a translated function calls it, and there it must fit the helper grammar (LoopFn.inline)
+        if len(ns) == 1 and isinstance(ns[0], ast.FunctionDef) and not ns[0].decorator_list and name not in RESERVED:
+            helpers[name] = ns[0]
+            continue
+        bail(ns[0], "unexpected module-level definition of `%s`" % name)
+    bound["@helpers"] = helpers
     return bound
 
 
@@ -1038,7 +1222,7 @@ def translate(src, util_src=None, voigt_src=None):
     for name, mode in ((FN_ENERGY, "energy"), (FN_KEYS, "keys")):
         fn = bound[name][0]
         try:
-            text = LoopFn(fn, mode).translate()
+            text = LoopFn(fn, mode, bound["@helpers"]).translate()
             out.append("  (* %s  (line %d) *)\n%s\n" % (name, fn.lineno, text))
             defined += ["gen_energy_key", "gen_energy"] if mode == "energy" else ["gen_keys_key", "gen_energy_keys"]
             loop_ok[mode] = True
